@@ -73,7 +73,7 @@ def tile_files(out_dir, ext):
     return found
 
 
-def check_wtml_vs_tree(out_dir, what, content_ref=None, max_levels=6):
+def check_wtml_vs_tree(out_dir, what, content_ref=None, max_levels=14):
     """content_ref: optional {(level, x, y): display-orientation array} for the deepest level."""
     wtml = os.path.join(out_dir, "index_rel.wtml")
     if not os.path.exists(wtml):
@@ -92,13 +92,33 @@ def check_wtml_vs_tree(out_dir, what, content_ref=None, max_levels=6):
     if levels < 0 or levels > max_levels:
         return ("wrong-tilelevels", "%s: WTML TileLevels %r is not plausible" % (what, levels))
     expanded = {}
-    for lv in range(levels + 1):
-        for x in range(2 ** lv):
-            for y in range(2 ** lv):
-                p = os.path.normpath(expand(url, lv, x, y))
-                if p in expanded:
-                    return ("ambiguous-url", "%s: positions %s and %s expand to the same path %s" % (what, expanded[p], (lv, x, y), p))
-                expanded[p] = (lv, x, y)
+    if levels <= 6:
+        for lv in range(levels + 1):
+            for x in range(2 ** lv):
+                for y in range(2 ** lv):
+                    p = os.path.normpath(expand(url, lv, x, y))
+                    if p in expanded:
+                        return ("ambiguous-url", "%s: positions %s and %s expand to the same path %s" % (what, expanded[p], (lv, x, y), p))
+                    expanded[p] = (lv, x, y)
+    else:
+        # deep pyramid: 4^levels positions cannot be enumerated; parse each file name back through the template
+        # (placeholders separated by literal non-digit text make the parse unique) and re-expand it
+        import re
+        pat = re.escape(url)
+        for ph, grp in (("{1}", "l"), ("{2}", "x"), ("{3}", "y")):
+            e = re.escape(ph)
+            if e in pat:
+                pat = pat.replace(e, "(?P<%s>[0-9]+)" % grp, 1).replace(e, "(?P=%s)" % grp)
+        if re.search(r"\)\(\?P", pat):
+            return ("ambiguous-url", "%s: Url template %r has adjacent placeholders" % (what, url))
+        rx = re.compile(pat)
+        for f in files:
+            m = rx.fullmatch(f.replace(os.sep, "/"))
+            if not m:
+                continue
+            lv, x, y = int(m.group("l")), int(m.group("x")), int(m.group("y"))
+            if lv <= levels and x < 2 ** lv and y < 2 ** lv and os.path.normpath(expand(url, lv, x, y)) == os.path.normpath(f):
+                expanded[os.path.normpath(f)] = (lv, x, y)
     existing = {p for p in expanded if os.path.isfile(os.path.join(out_dir, p))}
     if existing != files:
         unreachable = sorted(files - existing)[:6]
@@ -296,7 +316,12 @@ def run_one(ch, env):
                 r0 = col.rects[0]
                 r0["r0"], r0["c0"], r0["h"], r0["w"] = col.R0, col.C0, max(col.H, 40), max(col.W, 40)
                 col.H, col.W = r0["h"], r0["w"]
-                col.scale = 0.05
+                # one in three TOAST histories is a deep pyramid (arcsecond pixels -> ten or more tile levels, level chosen by toasty)
+                deep = ch.draw(3, kind="toast_deep") == 2
+                col.scale = 0.001 if deep else 0.05
+                if deep:
+                    r0["h"] = r0["w"] = col.H = col.W = 48
+                    res["probes"]["deep_toast_pyramid"] = 1
                 col.theta = (0.0, 30.0)[ch.draw(2, kind="rot2")]
                 for r in col.rects:
                     r["border"] = min(r["border"], 1)
@@ -322,7 +347,7 @@ def run_one(ch, env):
                 if k > 0:
                     res["probes"]["history_override" if override else "history_reuse"] = 1
                 label = "tile_fits(%s, call %d of %d, override=%s, %d workers)" % ("TOAST" if toast_mode else "TAN", k + 1, nops, override, workers)
-                kw = {"start": 1 + ch.draw(2, kind="toast_start")} if toast_mode else {}
+                kw = {"start": 1 + ch.draw(2, kind="toast_start")} if (toast_mode and not deep) else {}
                 if k > 0 and toast_mode:
                     kw = dict(last_kw)
                 last_kw = dict(kw)
